@@ -1127,7 +1127,6 @@ class TrigInfo:
                     self.webhook_trigger[0], self.webhook_local_only, self.webhook_methods, self.notify_q
                 )
 
-            last_trig_time = None
             last_state_trig_time = None
             state_trig_waiting = False
             state_trig_notify_info = [None, None]
@@ -1340,6 +1339,11 @@ class TrigInfo:
                     )
                     continue
 
+                #
+                # the time of the last trigger is kept with the function, since each of its
+                # triggers of the same type has its own TrigInfo
+                #
+                last_trig_time = self.action.trigger_last_time
                 if (
                     self.time_active_hold_off is not None
                     and last_trig_time is not None
@@ -1355,7 +1359,7 @@ class TrigInfo:
 
                 func_args.update(user_kwargs)
                 if self.call_action(notify_type, func_args):
-                    last_trig_time = time.monotonic()
+                    self.action.trigger_last_time = time.monotonic()
 
         except asyncio.CancelledError:
             #
